@@ -347,6 +347,8 @@ func runWithCommon(def *propDef, r *Run) {
 	if sc := successScope[def.ID]; len(sc) > 0 {
 		r.SuccessReturnTable(filePrefix(sc...), "a function hands out, on success, only the result forms it handed out on the reviewed tree: a new one (a memoised value, the configured instead of the stored record, a shortcut result) is a new accepting path")
 		r.MustPassGuardTable(filePrefix(sc...), "the rules of this property pin what the accepting paths check; a new accepting path (fast path, early success) that gets around a guard bypasses them")
+		r.AllGuardTable(filePrefix(sc...), "every rejection performed on the reviewed tree is still performed")
+		r.PlainBranchTable(filePrefix(sc...), "no new or altered non-rejecting fork")
 		r.MustPassEffectTable(filePrefix(sc...), "and what they do: a new accepting path that skips a state change (record saved, balance moved, marker set, cache purged, nested verification) leaves the ledger half-updated")
 	}
 }
@@ -563,6 +565,12 @@ func (r *Run) MustPassEffectTable(keep func(tableRow) bool, why string) int {
 			}
 		}
 		if !all[row.F][row.C] {
+			if isRecordEffectCanon(row.C) && !implicitZeroStore(all[row.F], row.C) {
+				n++
+				file, line := r.P.FnPos(fn)
+				r.viol("K4-effect", row.F, row.C, fmt.Sprintf("%s no longer performs `%s`, a state change every accepting path performed on the reviewed tree", row.F, row.C), why, file, line)
+				continue
+			}
 			absent++
 			continue
 		}
@@ -590,6 +598,116 @@ func (r *Run) MustPassEffectTable(keep func(tableRow) bool, why string) int {
 	}
 	if absent > 0 {
 		r.Notes = append(r.Notes, fmt.Sprintf("must-pass effect table: %d frozen effect(s) are no longer present under the same normal form (left to the effect rules)", absent))
+	}
+	return n
+}
+
+// isRecordEffectCanon: the canonical text is a store, a Save/Delete of a record, a balance move or a
+// big.Int mutation (the recordEffect classes), as opposed to a plain call.
+func isRecordEffectCanon(c string) bool {
+	if strings.HasPrefix(c, "store ") {
+		return !strings.HasPrefix(c, "store new([")
+	}
+	for _, m := range []string{".Save(", ".Delete(", ".AddBalance(", ".SubBalance(", ".SetBalance(", "addReward(", ".MarkAsReceived(", ".MarkAsUnreceived(", ".Purge()", ".Remove("} {
+		if strings.Contains(c, m) {
+			return true
+		}
+	}
+	return false
+}
+
+//go:embed tables/all_guards.json
+var allGuardsJSON []byte
+
+//go:embed tables/plain_branches.json
+var plainBranchesJSON []byte
+
+// AllGuardTable: every rejection a function of the selected files performed on the reviewed tree is
+// still performed (in the function, in a helper it calls and propagates, or as a tail return).
+func (r *Run) AllGuardTable(keep func(tableRow) bool, why string) int {
+	var rows []tableRow
+	if err := json.Unmarshal(allGuardsJSON, &rows); err != nil {
+		panic("bad embedded table: " + err.Error())
+	}
+	n := 0
+	for _, row := range rows {
+		if !keep(row) || r.P.Fn(row.F) == nil {
+			continue
+		}
+		n++
+		r.Guard(row.F, row.C, why)
+	}
+	if n == 0 {
+		r.viol("vacuous-rule", "", "guard table (all)", "no table row selected", why, "", 0)
+	}
+	return n
+}
+
+func plainBranches(r *Run, fn *ssa.Function) []string {
+	set := map[string]bool{}
+	for _, g := range r.P.Info(fn).guards {
+		if g.Reject != "" || g.Block.Succs[0] == g.Block.Succs[1] {
+			continue
+		}
+		s, n := g.Cond.String(), g.Cond.Negate().String()
+		if n < s {
+			s = n
+		}
+		set[s] = true
+	}
+	var out []string
+	for s := range set {
+		out = append(out, s)
+	}
+	sort.Strings(out)
+	return out
+}
+
+// PlainBranchTable: a function of the selected files forks, without rejecting, only on the conditions
+// it forked on on the reviewed tree. A new or altered non-rejecting condition (an extra disjunct on
+// a skip, a new fast-path test, a changed boundary on a mode switch) changes what is accepted or
+// done for the inputs on its new side.
+func (r *Run) PlainBranchTable(keep func(tableRow) bool, why string) int {
+	var rows []tableRow
+	if err := json.Unmarshal(plainBranchesJSON, &rows); err != nil {
+		panic("bad embedded table: " + err.Error())
+	}
+	want := map[string]map[string]bool{}
+	var order []string
+	for _, row := range rows {
+		if !keep(row) {
+			continue
+		}
+		if want[row.F] == nil {
+			want[row.F] = map[string]bool{}
+			order = append(order, row.F)
+		}
+		if row.C != "" {
+			want[row.F][row.C] = true
+		}
+	}
+	n := 0
+	for _, name := range order {
+		fn := r.P.Fn(name)
+		if fn == nil || fn.Blocks == nil {
+			continue
+		}
+		n++
+		file, line := r.P.FnPos(fn)
+		var extra []string
+		for _, c := range plainBranches(r, fn) {
+			if !want[name][c] {
+				extra = append(extra, c)
+			}
+		}
+		if len(extra) > 0 {
+			r.viol("K3-new-branch", name, "non-rejecting branch conditions", fmt.Sprintf("%s now forks (without rejecting) on a condition it did not fork on on the reviewed tree: %s", name, strings.Join(extra, " ; ")), why, file, line)
+			continue
+		}
+		r.pass("K3-new-branch", name, "non-rejecting branch conditions", fmt.Sprintf("%d frozen", len(want[name])), why, file, line)
+	}
+	if n == 0 {
+		r.viol("vacuous-rule", "", "plain branch table", "no table row selected", why, "", 0)
 	}
 	return n
 }
